@@ -473,7 +473,11 @@ pub fn c06(tier: &str, seed: u64, meta: &str) -> Report {
         let word = |rng: &mut Rng| -> Vec<SEv> {
             if phonetic {
                 // now and then a word that starts with escape characters (they display as nothing on their own)
-                let t = if rng.chance(1, 8) { format!("{}{}", ["`", "``", "`"][rng.below(3)], ["a", "k", "ka", ""][rng.below(4)]) } else { word_pool(&fpr.p, rng, 1).pop().unwrap_or_else(|| "ami".into()) };
+                // ... and an emoticon (a composition of punctuation only, with several candidates)
+                let t = if rng.chance(1, 8) { format!("{}{}", ["`", "``", "`"][rng.below(3)], ["a", "k", "ka", ""][rng.below(4)]) }
+                    else if rng.chance(1, 6) { rng.pick(&fpr.p.emoticons).clone() }
+                    else { word_pool(&fpr.p, rng, 1).pop().unwrap_or_else(|| "ami".into()) };
+                let t = if fpr.p.typeable(&t) { t } else { ";)".to_string() };
                 let t = if t.is_empty() { "`".to_string() } else { t };
                 fpr.p.key_events(&t, 0)
             } else {
@@ -488,7 +492,9 @@ pub fn c06(tier: &str, seed: u64, meta: &str) -> Report {
         let steps = feed(w, used, &first, rep, "C06");
         let composing = steps.last().map(|s| s.ongoing).unwrap_or(false);
         let term = rng.below(4);
-        let tevs: Vec<SEv> = match term { 0 => vec![SEv::Commit(0)], 1 => vec![SEv::Finish], 2 => vec![SEv::Back(true)], _ => vec![] };
+        // a commit takes any index of the list shown last
+        let shown = steps.last().and_then(|st| match &st.out { Out::Full { list, .. } => Some(list.len()), _ => None }).unwrap_or(1).max(1);
+        let tevs: Vec<SEv> = match term { 0 => vec![SEv::Commit(if phonetic { rng.below(shown) } else { 0 })], 1 => vec![SEv::Finish], 2 => vec![SEv::Back(true)], _ => vec![] };
         let mut terminated = false;
         if term == 3 {
             // plain backspaces until an empty suggestion comes back
